@@ -19,9 +19,9 @@ chk("C03", "exploration", "runtime monitoring: label chain oracle + behavioural 
     "Multi-file histories (rotations everywhere, offsets around 2^31 and 2^32, per-file configuration) are streamed; labels are compared with the model and an independent chain rule, and a FRESH streamer is started at the end label of every delivered transaction: the master must find the position on an event boundary and the deliveries must equal the remaining transactions with identical contents and labels.",
     "The simulated master answers a dump at a non-boundary offset with ERR 1236 like a real server. When a rotate lies between two transactions the label checked is the rotate target (as the statement says); resume is checked behaviourally.", "§5 C03")
 chk("C04", "fault_enumeration", "runtime monitoring: exactly-once ledger over recorded attempt chains + dump-request oracle, faults injected at every packet index",
-    "For each small history every packet index x 13 packet fault kinds, every transaction x {handler error, in-handler cancel}, mapper failures, x pacing {far-ahead, lock-step}, followed by 0..2 more failed attempts and a clean one, all on ONE streamer. The ledger demands that the handler accepts deliveries 0..T-1 exactly once and in order; the position oracle checks every COM_BINLOG_DUMP the master receives.",
+    "For each small history every packet index x 17 packet fault kinds (incl. well-formed rows events with an undecodable cell), every transaction x {handler error, in-handler cancel}, mapper failures, x pacing {far-ahead, lock-step}, followed by 0..2 more failed attempts and a clean one, all on ONE streamer. The ledger demands that the handler accepts deliveries 0..T-1 exactly once and in order; the position oracle checks every COM_BINLOG_DUMP the master receives.",
     "Accepted = handler returned nil. Persistent faults (in the store) are not used. Schedules are sampled (two pacings), fault points are enumerated.", "§5 C04")
-chk("C05", "fault_enumeration", "runtime monitoring: quiescent-stuck rule on goroutine dumps, leftover-goroutine and socket monitors, handler guard, " + RACE,
+chk("C05", "fault_enumeration", "runtime monitoring: quiescent-stuck rule on goroutine dumps, leftover-goroutine and socket monitors, handler guard, schedule perturbation through a slow user-supplied logger, " + RACE,
     "Stop cause x stop point (every packet index) x reader state (observed: waiting for the network / holding an event) x handler {fast, slow, blocked} under -race with GOMAXPROCS 1/2/4/16. Monitors: Stream and first/second Error() under the quiescent-stuck rule (two goroutine-dump samples 600 ms apart, all library goroutines parked on channel operations or on a socket the master will never write), library goroutines after quiescence, client socket Close, handler in-flight/streamActive guard, every race-detector report classified by the innermost library frames of both stacks.",
     "Bounded time is decided as not-stuck-at-quiescence (safety restatement). Race freedom = no detector report on these executions. Error() is only called after Stream returned. The race between the driver's Close and the reader is a recorded known finding (known_findings.txt).", "§5 C05")
 chk("C06", "fault_enumeration", "runtime monitoring: return-value oracle (three implications of the statement) over the enumerated stop scenarios",
@@ -42,7 +42,7 @@ chk("C10", "exploration", "runtime monitoring: reference-model monitor on CellBy
 chk("C11", "exploration", "runtime monitoring: reference-model monitor on CellBytes for all 1580 (p,s) pairs with an independent decimal2bin",
     "All valid (p,s) x digit-string classes (zeros, low digit, each 9-digit group zero/non-zero, nines, random) x sign; text must equal the canonical text built from the digit string, be non-empty, and the consumed length must equal decimal_bin_size.",
     "Negative zero not generated. Own decimal2bin cross-checked against math/big and decimal.c vectors.", "§5 C11")
-chk("C12", "exploration", "runtime monitoring: reference-model monitor on CellBytes, exhaustive 3-byte encodings, child processes under 5 TZ values",
+chk("C12", "exploration", "runtime monitoring: reference-model monitor on CellBytes, exhaustive 3-byte encodings, child processes under 5 TZ values plus one that sets time.Local itself after start",
     "All valid raw values of DATE, old TIME and TIME2(0) (exhaustive by logical field walk), fsp 0..6 x boundary/carry/random for TIME2/DATETIME2/TIMESTAMP2 with both TIME signs, old DATETIME/TIMESTAMP; TIMESTAMP text compared with time.Unix(sec).In(TZ) in five zones incl. DST edges.",
     "Shares the Go time package with the code under test. Zero timestamp only with zero fraction.", "§5 C12")
 chk("C13", "exploration", "runtime monitoring: reference-model monitor on CellBytes for every declared length + end-to-end NULL/empty/absent monitor through the streamer",
